@@ -98,7 +98,7 @@ def renewOrder (e : Env) (s : State) (o : Order) : State × Order × Option Stri
   match s.paymentAddress o.owner with
   | none => (s, o, some "payment address not set")
   | some payer =>
-    match s.send payer e.modMarket o.amount with
+    match s.sendLit payer e.modMarket o.amount with
     | .error m => (s, o, some m)
     | .ok s =>
       let (id, s) := s.appendOrder o
@@ -133,7 +133,7 @@ def refundOrder (e : Env) (s : State) (orderId : Nat) : State × Option String :
     match s.paymentAddress pd with
     | none => (s, some "payment address not set")
     | some acc =>
-      match s.send e.modOrder acc o.amount with
+      match s.sendLit e.modOrder acc o.amount with
       | .error m => (s, some m)
       | .ok s => (s, none)
 
@@ -188,6 +188,8 @@ def resetMetaDuration (s : State) (m : Metadata) : TxM (State × Metadata) := do
           match s.getShard sid with
           | some sh => if sh.status = ShardCompleted then (if shardEnd sh > acc then shardEnd sh else acc) else acc
           | none => acc) acc) 0
+  -- no completed shard left: keep the lifetime (the `fix:` of F16; before it the subtraction wrapped)
+  if expired < m.createdAt then return (s, m)
   let newDuration := subU64 expired m.createdAt
   if m.duration ≠ newDuration then
     let s ← removeDataExpireBlock s m.dataId (addU64 m.createdAt m.duration)
